@@ -295,9 +295,12 @@ class ZeroStores:
         rets = [bi for bi, bb in enumerate(g.blocks) if bb["t"]["k"] == "return"]
         dom = g.dominators()
         for (o, hdr, sb, n, reg) in self.sites(g):
-            if o[0] == "param" and rets and all(hdr in dom.get(r, set()) for r in rets):
-                if o[1] not in res or reg == ("whole",):
-                    res[o[1]] = reg
+            base = o
+            while base[0] == "split":
+                base = base[3]      # a part of a split of the parameter is still the parameter's buffer (region says which part)
+            if base[0] == "param" and rets and all(hdr in dom.get(r, set()) for r in rets):
+                if base[1] not in res or reg == ("whole",):
+                    res[base[1]] = reg
         self._busy.discard(g.id)
         self._summ[g.id] = res
         return res
@@ -341,7 +344,7 @@ def r_zerofill(F, cfg):
             for (bi, t, m, ro) in firsts:
                 kind, data_i, scr_i = PROCESS[m]
                 buf = origin(F, b, t["args"][data_i])
-                ok = [z for z in zs if z[0] == buf and z[1] in dom.get(bi, set())]
+                ok = [z for z in zs if _within(z[0], buf) and z[1] in dom.get(bi, set())]
                 if ok:
                     regs = [z[4] for z in ok]
                     full = [r for r in regs if r == ("whole",) or (r and r[0] == "suffix" and _is_signal_len(F, b, r[1]))]
@@ -353,12 +356,23 @@ def r_zerofill(F, cfg):
                     R.ok({"fn": b.name, "inner_call": m, "buffer": _fmt(buf), "zero_fill_at": b.where(ok[0][3]),
                           "extent": _fmt_region(full[0]) if full else "not decided (vectorised / indexed fill)"}, nontrivial=True)
                 else:
-                    near = [z for z in zs if z[0] == buf]
+                    near = [z for z in zs if _within(z[0], buf)]
                     R.violation("zerofill:%s" % b.name, b.where(t),
                                 "%s hands %s to the inner FFT without zero-filling its padding on every path first%s: the result then depends on the previous contents of the scratch"
                                 % (b.name, _fmt(buf), " (a zero store exists but does not lie on every path)" if near else ""))
     R.metric("bluestein_kernels_with_inner_call", n_fn)
     return R
+
+
+def _within(o, buf):
+    """Is origin o the buffer `buf` itself or a part of a split of it?"""
+    while True:
+        if o == buf:
+            return True
+        if o[0] == "split":
+            o = o[3]
+            continue
+        return False
 
 
 def _fmt_region(r):
@@ -623,7 +637,15 @@ def _adt_literals(F):
             body = b
             if any(n["r"].get("adt") in fft_adts for n in hits):
                 # constructors are judged with their private helpers merged in (scratch arithmetic hoisted into a helper)
-                body = inlined(F, b, _ctor_pred, rounds=2, max_blocks=1500)
+                def _pred(g, _fft=fft_adts):
+                    if not _ctor_pred(g):
+                        return False
+                    st = F.types[g.r["self_ty"]] if "self_ty" in g.r else None
+                    if g.r.get("ident", "").startswith("new") and st and st["k"] == "adt" and st["p"] in _fft:
+                        return False      # constructors of other transforms are not helpers
+                    return True
+                _pred.__name__ = "ctor_pred"
+                body = inlined(F, b, _pred, rounds=2, max_blocks=1500)
                 hits = [n for bi, si, n in body.iter_nodes() if n["k"] == "=" and n["r"]["k"] == "agg" and n["r"].get("ak") == "adt"]
             for n in hits:
                 memo[n["r"].get("adt")].append((body, n))
@@ -638,7 +660,7 @@ def _ctor_pred(g):
         return len(g.blocks) <= 60
     if g.r.get("reachable") or g.r.get("pub") or "trait" in g.r:
         return False
-    if g.name.startswith("twiddles::") or g.r.get("ident", "").startswith("new"):
+    if g.name.startswith("twiddles::"):
         return False
     return len(g.blocks) <= 60
 
